@@ -118,8 +118,10 @@ CHECKS = {
        "element reaches exactly one successful call, nothing unsubmitted is delivered, the call after a failed one "
        "is a superset",
   note=NOTE_COMMON + "Partial: 'exactly one' (no element delivered twice) and 'eventually at rest' (termination of "
-       "the retry loop) are decided by the differential and the monitor, not by a theorem; foreign-thread submission "
-       "interleavings are not explored by this check (single loop thread).",
+       "the retry loop) are decided by the differential and the monitor, not by a theorem. Foreign submitting threads: "
+       "the machine takes their two halves as inputs (fclear / fput) and the theorems cover programs containing them; on "
+       "the real code 1..2 foreign threads are explored under the baton scheduler (schedule point at every access to "
+       "the shared flag) and judged by the monitor only. Holds only after fix 30ffe8c (F10).",
   tech="Lean 4 proof (inductive invariant of the timed buffer machine over all input programs) + virtual-time "
        "model/implementation differential + conservation monitor", ref="§7 Buffer"),
  "C07": dict(
@@ -136,7 +138,8 @@ CHECKS = {
        "over each program: the model's verdict (terminates / hangs, phase) must equal the real loop's",
   note=NOTE_COMMON + "Known findings (known_findings.json): shutdown hangs in phases timer-armed, function-running, "
        "loading-captured. Partial: 'wait() eventually returns' is differential + hang detector, not a theorem. "
-       "Foreign-thread submit-then-wait_from_anywhere interleavings are not explored by this check.",
+       "Foreign-thread submit-then-wait_from_anywhere interleavings are explored on the real code under the baton "
+       "scheduler and judged by the barrier monitor (not compared with the model line by line).",
   tech="Lean 4 proof (inductive invariant: barrier; phase theorem + decide counter-examples for shutdown) + "
        "virtual-time differential + barrier monitor + shutdown hang detector", ref="§7 Buffer"),
  "C08": dict(
